@@ -31,6 +31,12 @@ CHECKS = {
     "C16": dict(cat="model_checking", ref="§4 C16", tech="TLC exhaustive model checking of the hand-out machine JitterApi (tokens, <=3 instances, clone of clone) with invariants AtMostOnce / PendingIsHighHalfOfOwnValue / FreshOrPendingHalf and a negative control; transition cover replayed on real JitterRng instances; Trace_Jitter executes the same plans on concrete pools",
                 text="All interleavings of next_u32/next_u64/fill_bytes/clone over up to three instances are explored on the abstract machine; the plans it uses are the ones the trace specification executes on concrete state, so every edge replayed on real JitterRng objects is validated for value, flag and readings consumed.",
                 note=TB + "; round counts 1,2,3 (quick) and 64,255 (thorough); fill_bytes(1..4) with a half pending is left open (C05 vs C16 wording)"),
+    "C02": dict(cat="model_checking", ref="§4 C02", tech="TLA+ HC-128 in paper form (Hc128.tla) evaluated by TLC on recorded Hc128Rng traces (trace validation)",
+                text="Every recorded keystream word of the real Hc128Rng (unit-bit seeds over every key/IV bit, structured and random seeds, 2200-word runs across P/Q phases, refills and the 1024-step wrap) must equal the word computed by Wu's HC-128 written from the paper, independent of the Rust unrolling and index pre-computation.",
+                note=TB + "; seeds and positions are a corpus (HC-128 is non-linear)"),
+    "C03": dict(cat="model_checking", ref="§4 C03", tech="TLA+ ISAAC / ISAAC-64 in reference shape (Isaac.tla) evaluated by TLC on recorded IsaacRng / Isaac64Rng traces",
+                text="Every recorded word of the real generators (unit-bit seeds x the whole first block, structured/random seeds x 3 blocks, long runs) must equal Jenkins' reference isaac()/isaac64() after randinit(TRUE) on the zero-extended seed, consumed from the end of each block; seed_from_u64(0) is validated as the unseeded reference in C09.",
+                note=TB + "; seeds and positions are a corpus (ISAAC is non-linear)"),
 }
 
 NOT_YET = {}
